@@ -325,9 +325,21 @@ pub fn blob_desc(b: &Blob) -> String {
     format!("{}B/{:?}/{}", b.len, b.fill, b.salt)
 }
 
-/// `ContentTreeValid` as an error string (used as a step invariant by several engines).
-pub fn content_invariant(ctx: &Ctx, allow_symlinks: bool) -> Result<(), String> {
-    let bad = crate::reffmt::content_tree_violations(&ctx.cache, allow_symlinks);
+/// `ContentTreeValid` as an error string (a step invariant of several engines). Files the
+/// harness itself damaged or substituted (the model knows them as not reading back) are
+/// discounted.
+pub fn content_invariant(ctx: &Ctx, model: &Model, allow_symlinks: bool) -> Result<(), String> {
+    let bad: Vec<String> = crate::reffmt::content_tree_violations_ex(&ctx.cache, allow_symlinks)
+        .into_iter()
+        .filter(|(addr, _)| match addr {
+            Some(a) => match model.content.get(a) {
+                Some(_) => matches!(model.read_exp(a), crate::model::ReadExp::Bytes(_)),
+                None => true,
+            },
+            None => true,
+        })
+        .map(|x| x.1)
+        .collect();
     if bad.is_empty() {
         Ok(())
     } else {
